@@ -354,7 +354,8 @@ impl<'a> Walk<'a> {
         F: Fn(Path) + Sync + Send,
         's: 'w,
     {
-        if level > self.depth {
+        // `depth` 1 means: list the given directories, but do not descend into subdirectories
+        if level >= self.depth {
             return;
         }
         if !self.path_selector.matches_dir(&path) {
